@@ -285,11 +285,26 @@ var (
 	wrapCount atomic.Int64
 )
 
+// decoyHandler is wrapped by the same middleware before and after the real handler and never used: a middleware wraps
+// as many handlers as its owner likes; wrapping another one must not change what an earlier Wrap returned.
+type decoyHandler struct{}
+
+var decoyCalls atomic.Int64
+
+func (decoyHandler) ServeHTTP(w http.ResponseWriter, r *http.Request) { decoyCalls.Add(1) }
+
 func wrappedOnce(mw wrapper) http.Handler {
 	if h, ok := wrapCache.Load(mw); ok {
 		return h.(http.Handler)
 	}
+	n := wrapCount.Load()
+	if n%2 == 0 {
+		_ = mw.Wrap(decoyHandler{})
+	}
 	h := mw.Wrap(dispatchHandler{})
+	if n%3 != 0 {
+		_ = mw.Wrap(decoyHandler{})
+	}
 	if wrapCount.Add(1) > 1<<14 { // bounded: checks create millions of short-lived middlewares
 		wrapCache.Clear()
 		wrapCount.Store(0)
